@@ -456,6 +456,17 @@ def run_strio(prog, rep):
                     if n.k in ('exprstmt', 'cleanup', 'paren'):
                         return any(defines(ch) for ch in n.c)
                     return False
+                # verbatim: apart from the assignment and the clear() of a null element, nothing modifies data[i] or a reference to it
+                aliases = set()
+                for v in lps[0].walk():
+                    if v.k == 'var' and v.c and v.c[0] is not None and (v.get('type') or '').rstrip().endswith('&') and 'data' in repr(term(unwrap(v.c[0]))):
+                        aliases.add(v.get('lid'))
+                for m in lps[0].walk():
+                    if m.k == 'call' and m.get('member') and m.c and not (m.callee or {}).get('sig', '').endswith(' const'):
+                        t = term(unwrap(m.c[0]))
+                        on_data = t == ('idx', ('f', 'data'), iv) or (isinstance(t, tuple) and t[0] == 'v' and t[1] in aliases)
+                        if on_data and (m.callee or {}).get('name') not in ('clear',):
+                            probs.append('the copied string is modified afterwards (%s): what is read back is not what was stored (trailing blanks, line breaks or non-ASCII bytes are lost)' % m.src(40))
                 body = lps[0].c[3]
                 if not defines(body):
                     probs.append('some iteration leaves data[i] untouched (a null element, i.e. one that was never written, keeps the previous content of the caller\'s string instead of reading as empty)')
@@ -719,4 +730,34 @@ def run_rank_gate(prog, rep):
                 ((t[1] in ('>', '>=') and pol is False) or (t[1] in ('<', '<=') and pol is True)) for t, pol in facts)
     rule.check(lower and upper, 'BlockHDF5::createDataArray|rank', rep.where(og[0]), f.label(), '0 < rank <= H5S_MAX_RANK established before the group is created',
                'the array group is created without %s: libhdf5 refuses the data space afterwards and the empty array stays in the file' % ('a lower bound on the rank' if not lower else 'an upper bound on the rank (H5S_MAX_RANK)'))
+    return rule
+
+
+def run_set_extent(prog, rep):
+    """DataSet::setExtent hands the requested shape to H5Dset_extent on every returning path (or has established that the
+    current shape *is* the requested shape - equal element counts are not equal shapes)"""
+    rule = rep.rule('R-SETEXTENT', 'DataSet::setExtent calls H5Dset_extent(hid, dims) and checks it on every normally returning path, unless the whole current shape equals dims', floor=1)
+    f = prog.fn('nix::hdf5::DataSet::setExtent')
+    pn = f.params[0]['name']
+    it = GenericInterp(prog, watch=lambda n: (n.callee or {}).get('name') in ('H5Dset_extent', 'check'))
+    probs = []
+    nset = 0
+    for assign, out, log, fields in it.enumerate(f, this='THIS', args=[(pn,)]):
+        if out[0] != 'ret':
+            continue
+        se = [l for l in log if l[0] == 'H5Dset_extent']
+        if not se:
+            same = [v for k, v in assign.items() if k[0] == 'cmp' and k[1] == '==' and (pn,) in k[2:4] and 'nelms' not in repr(k) and 'size' not in repr(k) and 'extent' in repr(k)]
+            if same and same[0] is True:
+                continue
+            probs.append('a path returns without H5Dset_extent although the shape asked for may differ from the current one (taken when %s): a reshape that keeps the number of elements is dropped, old elements reappear' % _cond_text(assign))
+            continue
+        nset += 1
+        if se[0][1] != ('mem', 'hid', 'THIS') or se[0][2] != ('call', 'data', (pn,)):
+            probs.append('H5Dset_extent is given %r' % (se[0][1:],))
+        if not [l for l in log if l[0] == 'check']:
+            probs.append('the result of H5Dset_extent is not checked')
+    if not nset:
+        probs.append('no path sets the extent')
+    rule.check(not probs, 'DataSet::setExtent', rep.where(f), f.label(), 'H5Dset_extent(hid, dims.data()) checked on every returning path', '; '.join(sorted(set(probs))[:2]))
     return rule
